@@ -23,7 +23,8 @@ EXPLANATION = (
     "context, the only early return being for an empty context; no method other than _set_context writes (update, setdefault, "
     "update_recursively, update_nested) into an object that still shares dictionaries with a stored static-context field -- an alias "
     "or a shallow copy handed to a recursive merge; (g) a sequence constructor that builds an inner sequence from self._data_seq after "
-    "the context was threaded threads the whole sequence again afterwards.  Does not decide the "
+    "the context was threaded threads the whole sequence again afterwards -- on every constructor path, with the inner sequence recognised "
+    "also when its elements reach it through locals derived from self._data_seq / self._seq / the arguments or through a module-level helper.  Does not decide the "
     "concrete context seen for a concrete tree.")
 RULES = {
     "C13-a": "FOLD: LenaSequence._set_context threads the context forwards through self._seq, set before get",
